@@ -39,6 +39,7 @@ Leaves(fam, sc) ==
                                TPath(TId, << PUpto(TNum(1)) >>)}
           [] fam = "streams" -> {TNum(1), TC0("empty"), TC0("error"), TC0("null"), DivC, DivN, NullErr}
           [] fam = "lazyp" -> {TAt(TNum(0)), TPath(TId, << PIdxO(TNum(1)) >>), TIter, TC0("empty"), TC0("error"), DivC, DivN}
+          [] fam = "eqf" -> {TNum(1), TC0("null"), TC0("empty"), TC0("error"), TIterO}
           [] fam = "rec" -> {TNum(1), TC0("empty"), TC0("error"), RecCall}
           [] fam = "recb" -> {TNum(1), TC0("empty"), TC0("error")}
           [] OTHER -> {})
@@ -49,6 +50,7 @@ Bin(fam) ==
     [] fam = "paths" -> {"|", ",", "//"}
     [] fam = "streams" -> {"|", ",", "//"}
     [] fam = "lazyp" -> {"|", ",", "//"}
+    [] fam = "eqf" -> {","}
     [] fam \in {"rec", "recb"} -> {"|", ",", "+", "//"}
     [] OTHER -> {}
 
@@ -70,7 +72,7 @@ Unary(fam, sc, t) ==
     [] fam \in {"rec", "recb"} -> {TArr(t), TTryE(t), TTry(t, TStr(Ascii("c"))), TC1("first", t)}
     [] OTHER -> {}
 
-HasBinders(fam) == fam \in {"binders", "paths", "streams", "rec", "recb", "lazyp"}
+HasBinders(fam) == fam # "eqf" /\ fam \in {"binders", "paths", "streams", "rec", "recb", "lazyp"}
 HasDefs(fam) == fam \in {"binders", "paths"}
 
 G(fam, n, sc) ==
